@@ -454,4 +454,61 @@ theorem setitem1d_pairs {α : Type} (V : List α) (lengths : List Nat) (start st
   rw [e1, e2, e3]
   simp
 
+/-- what one block assigns for a 1-d integer-array index: for the value positions `k` it is given (increasing),
+    the pair (array position `index[k]`, value element `V[k]`) -/
+def blockAssignInt {α : Type} (index : List Int) (V : List α) (l0 l1 : Int) : List (Int × α) :=
+  (valueIndicesInt index l0 l1).filterMap fun k =>
+    match index[k]?, V[k]? with
+    | some i, some v => some (i, v)
+    | _, _ => none
+
+theorem blockAssignInt_aux {α : Type} (l0 l1 : Int) : ∀ (index : List Int) (V : List α) (k0 : Nat) (pi : List Int) (pv : List α),
+    pi.length = k0 → pv.length = k0 →
+    ((valueIndicesFrom k0 l0 l1 index).filterMap fun k =>
+      match (pi ++ index)[k]?, (pv ++ V)[k]? with
+      | some i, some v => some (i, v)
+      | _, _ => none)
+    = (index.zip V).filter (fun p => decide (l0 ≤ p.1) && decide (p.1 < l1)) := by
+  intro index
+  induction index with
+  | nil => intro V k0 pi pv _ _; simp [valueIndicesFrom]
+  | cons i rest ih =>
+    intro V k0 pi pv hpi hpv
+    cases V with
+    | nil =>
+      -- no value elements left: nothing can be paired
+      simp only [List.zip_nil_right, List.filter_nil, List.append_nil]
+      apply List.filterMap_eq_nil_iff.mpr
+      intro k hk
+      have hk0 := ((mem_valueIndicesFrom l0 l1 (i :: rest) k0 k).mp hk).1
+      have : pv[k]? = none := by rw [List.getElem?_eq_none]; omega
+      rw [this]
+      cases (pi ++ i :: rest)[k]? <;> rfl
+    | cons v vs =>
+      have happi : pi ++ i :: rest = (pi ++ [i]) ++ rest := by simp
+      have happv : pv ++ v :: vs = (pv ++ [v]) ++ vs := by simp
+      have ih' := ih vs (k0 + 1) (pi ++ [i]) (pv ++ [v]) (by simp [hpi]) (by simp [hpv])
+      rw [← happi, ← happv] at ih'
+      simp only [valueIndicesFrom, List.zip_cons_cons, List.filter_cons]
+      by_cases hc : l0 ≤ i ∧ i < l1
+      · have hd : (decide (l0 ≤ i) && decide (i < l1)) = true := by simp [hc.1, hc.2]
+        simp only [hc, and_self, if_true, List.filterMap_cons, hd]
+        have g1 : (pi ++ i :: rest)[k0]? = some i := by rw [← hpi]; simp
+        have g2 : (pv ++ v :: vs)[k0]? = some v := by rw [← hpv]; simp
+        simp only [g1, g2]
+        rw [ih']
+        simp
+      · have hd : (decide (l0 ≤ i) && decide (i < l1)) = false := by
+          simp only [Bool.and_eq_false_imp, decide_eq_true_eq, decide_eq_false_iff_not]
+          intro h1 h2; exact hc ⟨h1, h2⟩
+        simp only [hc, if_false, hd]
+        exact ih'
+
+/-- **integer-array assignment**: block `[l0, l1)` assigns exactly the pairs `(index[k], V[k])` whose target
+    lies in the block, in increasing `k` (so a position named several times ends with NumPy's value: the last). -/
+theorem blockAssignInt_eq {α : Type} (index : List Int) (V : List α) (l0 l1 : Int) :
+    blockAssignInt index V l0 l1 = (index.zip V).filter (fun p => decide (l0 ≤ p.1) && decide (p.1 < l1)) := by
+  have := blockAssignInt_aux l0 l1 index V 0 [] [] rfl rfl
+  simpa [blockAssignInt, valueIndicesInt] using this
+
 end Dask.SetItem
